@@ -19,6 +19,7 @@ type c10Case struct {
 	Waiters  int      `json:"waiters"`
 	Order    []int    `json:"order"`  // spawn order: actor ids 0..H-1 = holders, H..H+W-1 = waiters
 	Yields   []uint8  `json:"yields"` // yield counts at successive schedule points
+	Ghosts   int      `json:"ghosts,omitempty"` // blocking/deadline kinds: earlier callers that blocked and gave up (cancelled) before the scenario
 }
 
 var c10Kinds = []StackCfg{
@@ -41,6 +42,9 @@ func genC10(t *rapid.T) c10Case {
 	c.Waiters = rapid.IntRange(1, 3).Draw(t, "waiters")
 	c.Order = rapid.Permutation(seq(h+c.Waiters)).Draw(t, "order")
 	c.Yields = rapid.SliceOfN(rapid.SampledFrom([]uint8{0, 0, 1, 1, 2, 3, 5}), 0, 24).Draw(t, "yields")
+	if c.Stack.Kind != "queue" {
+		c.Ghosts = rapid.SampledFrom([]int{0, 0, 1, 2, 3}).Draw(t, "ghosts")
+	}
 	return c
 }
 
@@ -77,6 +81,22 @@ func runC10InBubble(c c10Case) (out kit.Outcome) {
 			return kit.Outcome{Harness: fmt.Sprintf("prefill: caller %d not granted", i)}
 		}
 		holders = append(holders, cl)
+	}
+	// earlier callers that blocked and then gave up: whatever they leave behind (helper goroutines
+	// parked on the condition) must not swallow the wake-up meant for the real waiters
+	if c.Stack.Kind != "queue" {
+		for i := 0; i < c.Ghosts; i++ {
+			g := w.newCaller("a", 0, 0)
+			w.start(g)
+			synctest.Wait()
+			g.cancel()
+			synctest.Wait()
+			if !g.Done || g.OK {
+				w.unwind(2 * time.Second)
+				w.flush()
+				return kit.Outcome{Harness: "ghost caller did not return refused after its cancellation"}
+			}
+		}
 	}
 	var waiters []*vtCaller
 	for i := 0; i < c.Waiters; i++ {
@@ -196,6 +216,9 @@ func TestC10_enum_Coop(t *testing.T) {
 						x /= len(vals)
 					}
 					c := c10Case{Stack: base, Waiters: s.w, Order: order, Yields: ys}
+					if base.Kind != "queue" {
+						c.Ghosts = (code / 3) % 3
+					}
 					c.Stack.Inject = true
 					c.Stack.Strategy = "simple"
 					c.Stack.Limit = s.limit
